@@ -365,11 +365,74 @@ func checkC14(c *Check) {
 func (c *Check) hostnameNormalisation() {
 	l := c.L
 	n := 0
+	// lowerCopy: v is a fresh slice, as long as a parameter slice of the function that makes it, every element of
+	// which is strings.ToLower of the corresponding element of that parameter; or the result of a function of the
+	// package whose every returned value is such a copy
+	var lowerCopy func(v ssa.Value, depth int) bool
+	lowerCopy = func(v ssa.Value, depth int) bool {
+		if depth > 3 {
+			return false
+		}
+		switch x := v.(type) {
+		case *ssa.MakeSlice:
+			ln, _ := callOf(x.Len)
+			if ln == nil || calleeFull(ln) != "builtin.len" {
+				return false
+			}
+			src, isP := ln.Call.Args[0].(*ssa.Parameter)
+			if !isP {
+				return false
+			}
+			stores, lower := 0, 0
+			for _, r := range *x.Referrers() {
+				ia, isIA := r.(*ssa.IndexAddr)
+				if !isIA {
+					continue
+				}
+				for _, rr := range *ia.Referrers() {
+					if st, isSt := rr.(*ssa.Store); isSt && st.Addr == ssa.Value(ia) {
+						stores++
+						if cv, _ := callOf(st.Val); cv != nil && calleeFull(cv) == "strings.ToLower" {
+							if ld, isLd := cv.Call.Args[0].(*ssa.UnOp); isLd {
+								if sa, isSA := ld.X.(*ssa.IndexAddr); isSA && sa.X == ssa.Value(src) && sa.Index == ia.Index {
+									lower++
+								}
+							}
+						}
+					}
+				}
+			}
+			return stores > 0 && stores == lower
+		case *ssa.Call:
+			g := x.Call.StaticCallee()
+			if g == nil || g.Blocks == nil || fnPkgPath(g) != akash+"/provider/cluster" || g.Signature.Results().Len() != 1 {
+				return false
+			}
+			rets := helperReturns(g, 0)
+			if len(rets) == 0 {
+				return false
+			}
+			for _, rv := range rets {
+				if !lowerCopy(rv, depth+1) {
+					return false
+				}
+			}
+			return true
+		case *ssa.Phi:
+			for _, e := range x.Edges {
+				if !lowerCopy(e, depth+1) {
+					return false
+				}
+			}
+			return len(x.Edges) > 0
+		}
+		return false
+	}
 	for _, name := range []string{"ReserveHostnames", "CanReserveHostnames", "ReleaseHostnames"} {
 		fn := l.Func("provider/cluster", "hostnameService", name)
 		c.Analysed(fnName(fn))
 		var sent ssa.Value
-		eachInstr(fn, func(i ssa.Instruction) {
+		eachInstrDeep(fn, func(i ssa.Instruction) {
 			var v ssa.Value
 			switch x := i.(type) {
 			case *ssa.Select:
@@ -388,7 +451,7 @@ func (c *Check) hostnameNormalisation() {
 			if _, isStruct := v.Type().Underlying().(*types.Struct); isStruct {
 				if ld, isLd := v.(*ssa.UnOp); isLd {
 					if a, isA := ld.X.(*ssa.Alloc); isA {
-						for _, st := range fieldStores(fn, func(fa *ssa.FieldAddr) bool {
+						for _, st := range fieldStores(i.Parent(), func(fa *ssa.FieldAddr) bool {
 							return fa.X == ssa.Value(a) && fieldName(fa.X.Type(), fa.Field) == "hostnames"
 						}) {
 							v = st.Val
@@ -404,27 +467,8 @@ func (c *Check) hostnameNormalisation() {
 		ok := false
 		why := "no hostname list is sent to the service loop"
 		if sent != nil {
-			mk, isMk := sent.(*ssa.MakeSlice)
-			why = "the list sent to the service loop is " + short(Sym(sent)) + ", not the lower-cased copy: names are reserved under one spelling and released/checked under another"
-			if isMk {
-				stores, lower := 0, 0
-				for _, r := range *mk.Referrers() {
-					ia, isIA := r.(*ssa.IndexAddr)
-					if !isIA {
-						continue
-					}
-					for _, rr := range *ia.Referrers() {
-						if st, isSt := rr.(*ssa.Store); isSt && st.Addr == ssa.Value(ia) {
-							stores++
-							if cv, _ := callOf(st.Val); cv != nil && calleeFull(cv) == "strings.ToLower" && strings.HasPrefix(Sym(cv.Call.Args[0]), "*p:hostnames[") {
-								lower++
-							}
-						}
-					}
-				}
-				ok = stores > 0 && stores == lower && Sym(mk.Len) == "builtin.len(p:hostnames)"
-				why = "the list sent to the service loop is not filled with strings.ToLower of every given name"
-			}
+			ok = lowerCopy(sent, 0)
+			why = "the list sent to the service loop is " + short(Sym(sent)) + ", not a copy filled with strings.ToLower of every given name: names are reserved under one spelling and released/checked under another"
 		}
 		c.Ob("R7", name+" hands the service loop the lower-cased names", fn.Pos(), ok, why)
 	}
